@@ -328,7 +328,8 @@ def check(col, prog, tier, profile, fixture=None):
                 else:
                     col.violation("V8" + sfx, "%s|sequence" % fk(b), b.loc(), "tuple writer emits %s; expected the %d components in field order with exactly one ' ' between neighbours" % (seq, arity))
         elif sty.startswith(("std::vec::Vec<", "alloc::vec::Vec<")) or (sty.startswith("[") and sty.endswith("]") and ";" not in sty):
-            I = util.analyse(b)
+            conv = [m for m in util.methods_of(crate, "Writer") if m.key not in (wb.key, fl.key, wr.key, wc.key) and not util.self_recursive(m)]
+            I = util.analyser(conv)(b)
             key = "%s|separator-before-all-but-first" % fk(b)
             # delegation to another sequence impl (Vec -> slice): that impl is judged on its own
             deleg = None
@@ -352,7 +353,7 @@ def check(col, prog, tier, profile, fixture=None):
                         out.append("W")
                 return out
 
-            backs = [s_ for l in I.backedge_states.values() for s_ in l]
+            backs = [s_ for l in I.backedge_states.values() for s_ in l] + list(I.inl_back)
             pre_set, it_first, it_rest, its = set(), None, None, []
             for st in backs:
                 evs = st.event_list()
@@ -447,6 +448,15 @@ def _digits(col, crate, base10, wb, wc, wr, sfx):
                     index_local = il
                     # digit = (value % 10) as u8 + 48   (either operand order)
                     okd = dig[0] == "bin" and dig[1] == "Add" and mk_int(48) in (dig[2], dig[3])
+                    if not okd and dig[0] == "bin" and dig[1] == "Add":
+                        # `digits[i] += digit` on a buffer pre-filled with b'0': every slot is written at most once
+                        # (the index strictly decreases), so the old content of the slot is still the fill byte
+                        ent_arr = [en.get(bufl) for en in I.loop_entry.get(head, [])]
+                        prefilled = bool(ent_arr) and all(isinstance(x, tuple) and x and x[0] == "repeat" and x[1] == mk_int(48) for x in ent_arr)
+                        for old_, other_ in ((dig[2], dig[3]), (dig[3], dig[2])):
+                            if prefilled and old_[0] == "idx" and old_[1] == ("phi", head, bufl) and old_[2] == idx:
+                                dig = ("bin", "Add", mk_int(48), other_)
+                                okd = True
                     rem = None
                     if okd:
                         other = dig[2] if dig[3] == mk_int(48) else dig[3]
@@ -519,6 +529,10 @@ def _digits(col, crate, base10, wb, wc, wr, sfx):
                         isneg = bool(f[2])
                     if f[0] == "eq" and isinstance(t, tuple) and t[0] == "bin" and t[1] == "Ge" and t[3] in (("ref", ("constval", mk_int(0))), mk_int(0)):
                         isneg = not bool(f[2])
+                    if f[0] == "eq" and isinstance(t, tuple) and t[0] == "call" and str(t[1]).endswith("::is_negative"):
+                        isneg = bool(f[2])
+                    if f[0] == "eq" and isinstance(t, tuple) and t[0] == "call" and str(t[1]).endswith("::is_positive"):
+                        pass
                 okm = len(mag) == 1 and len(ua) == 1 and evs[mag[0]].extra["argvals"][1] == ua[0].res and (ua[0].fn.get("path") or "").startswith("core::num::<impl %s>" % ty)
                 if isneg is True:
                     neg_ok = okm and len(minus) == 1 and minus[0] < mag[0]
